@@ -138,6 +138,16 @@ def scen_late_registration(ch, params, out):
     c1 = oracles.canon_str(oracles.canon_ir(ir))
     ir2 = gen.optimize_type(ir)
     out.check(c1 == oracles.canon_str(oracles.canon_ir(ir2)), "not_idempotent", lambda: f"{samples} ({when}): {c1} -> second pass differs", "not_idempotent")
+    # the simplified type is a function of the registry's content, not of the moment its types were registered
+    reg_b = StringSerializableRegistry()
+    reg_b.add(cls=IntString)
+    reg_b.add(replace_types=(IntString,), cls=FloatString)
+    reg_b.add(cls=BooleanString)
+    register_datetime_classes(reg_b)
+    ref = MetadataGenerator(str_types_registry=reg_b).generate(*samples)
+    cref = oracles.canon_str(oracles.canon_ir(ref))
+    out.check(c1 == cref, "simplification_depends_on_registration_time",
+              lambda: f"{samples}: with datetime types registered {when}: {c1}; registered before the generator existed: {cref}", "simplification_depends_on_registration_time")
 
 
 def parts(tier):
